@@ -20,10 +20,10 @@ class C04(Prop):
     level = "fault_enumeration"
     title = "A query's answer does not depend on what was evaluated before it"
     campaigns = {
-        "quick": [("faultfree", 4000, 40), ("faults", 12000, 60), ("enumerated", 600, 60), ("the_enumerated", 1500, 60), ("rules_enumerated", 400, 60),
+        "quick": [("faultfree", 4000, 40), ("faults", 12000, 60), ("enumerated", 600, 60), ("the_enumerated", 1500, 60), ("rules_enumerated", 400, 60), ("extended", 6000, 60),
                   ("known:disjunction+for_all", 320, 30), ("known:disjunction+flatten", 320, 30),
                   ("known:disjunction+nested_query", 320, 30), ("known:predicate_with_repeated_variable", 320, 30), ("known:disjunction_over_different_variables", 320, 30), ("known:disjunction_of_multi_variable_conjunction", 320, 30), ("rules", 3000, 40), ("known:rule_tree_with_alternative_or_next", 320, 40), ("known:kwargs_form_variable_in_multi_variable_query", 320, 30), ("known:falsy_operand", 600, 30)],
-        "thorough": [("faultfree", 60000, 600), ("faults", 200000, 1500), ("enumerated", 12000, 1500), ("the_enumerated", 40000, 1200), ("rules_enumerated", 8000, 1200),
+        "thorough": [("faultfree", 60000, 600), ("faults", 200000, 1500), ("enumerated", 12000, 1500), ("the_enumerated", 40000, 1200), ("rules_enumerated", 8000, 1200), ("extended", 100000, 900),
                      ("known:disjunction+for_all", 4000, 300), ("known:disjunction+flatten", 4000, 300),
                      ("known:disjunction+nested_query", 8000, 300), ("known:predicate_with_repeated_variable", 4000, 300), ("known:disjunction_over_different_variables", 20000, 300), ("known:disjunction_of_multi_variable_conjunction", 20000, 300), ("rules", 60000, 600), ("known:rule_tree_with_alternative_or_next", 6000, 400), ("known:kwargs_form_variable_in_multi_variable_query", 40000, 400), ("known:falsy_operand", 40000, 400)],
     }
@@ -48,7 +48,7 @@ class C04(Prop):
     vacuity = {"quick": ["probe:judged", "probe:after_abandon", "fault_fired", "probe:after_fault",
                          "probe:shared_var_other_query_first", "probe:judged_the", "fault_fired:F3_in_the",
                          "fault_fired:F4_intrinsic_abort", "fault_fired:F1_cancel", "fault_fired:F2_orphan",
-                         "enumerated_crash_points"]}
+                         "enumerated_crash_points", "probe:query_extended_after_history"]}
 
     # ------------------------------------------------------------------ generation
     def _gen_the_enumerated(self, rng, tier):
@@ -81,6 +81,9 @@ class C04(Prop):
         if campaign == "the_enumerated":
             return self._gen_the_enumerated(rng, tier)
         cfg = G.gen_config(rng, tier)
+        if campaign == "extended":
+            cfg["n_vars"] = rng.choice([1, 2, 2, 2, 3])
+            cfg["depth"] = max(1, cfg["depth"])
         cfg["kinds"] = ["list", "list", "tuple", "gen", "iterobj"]
         cfg["allow_nodom"] = True
         # falsy attribute values (0, []) are dropped inside comparison operands by the pinned engine (the pure-
@@ -115,6 +118,35 @@ class C04(Prop):
                 t["quant"] = "the"
                 pool["queries"].append(t)
         the_ids = [q["id"] for q in pool["queries"] if q["quant"] == "the"]
+        if campaign == "extended":
+            # queries that are extended (`with symbolic_mode(q): Pred(..)`) AFTER they have a history
+            ext = [q["id"] for q in pool["queries"] if q["quant"] == "an" and q.get("shape") == "entity"
+                   and not q.get("rule") and not q.get("head") and q.get("conds")]
+            ops = []
+            if ext:
+                eq = rng.choice(ext)
+                for _ in range(rng.randint(1, 3)):
+                    r = rng.random()
+                    if r < 0.45:
+                        ops.append(["take", eq, rng.choice([1, 1, 2, 3]), "close"])
+                    elif r < 0.7:
+                        ops.append(["fault", eq, rng.choice([1, 2, 3, 4, 5, 6, 8, 10, 13, 17, 22])])
+                    elif r < 0.85:
+                        ops.append(["full", eq])
+                    else:
+                        ops.append(["take", eq, rng.choice([1, 2]), "s0"])
+                        ops.append(["drop", "s0"])
+                sel = [q["sel"][0] for q in pool["queries"] if q["id"] == eq][0]
+                others = [v["n"] for v in pool["vars"] if v["n"] not in ("u", sel) and v.get("t") != "View"]
+                if others and rng.random() < 0.6:
+                    ops.append(["extend", eq, "Linked", rng.choice(others)])
+                else:
+                    ops.append(["extend", eq, rng.choice(["IsBig", "IsBigK"]), rng.choice([1, 2, 3])])
+                ops.append(["probe", eq])
+                ops.append(["probe", eq])
+            for q in an_ids:
+                ops.append(["probe", q])
+            return {"world": world, "pool": pool, "ops": ops, "cfg": cfg}
         if campaign in ("enumerated", "rules_enumerated"):
             plan = {"world": world, "pool": pool, "ops": [], "cfg": cfg, "enumerate": rng.choice(an_ids)}
             if campaign == "enumerated" and rng.random() < 0.5:
@@ -131,6 +163,9 @@ class C04(Prop):
             return plan
         ops = []
         n_ops = rng.randint(1, 8 if tier == "quick" else 12)
+        # only plain single-entity queries without rule parts are extended
+        extendable = [q["id"] for q in pool["queries"] if q["quant"] == "an" and q.get("shape") == "entity"
+                      and not q.get("rule") and not q.get("head") and q.get("conds")]
         slots = []
         sn = 0
         for _ in range(n_ops):
@@ -154,8 +189,17 @@ class C04(Prop):
                 # evaluation after other evaluations touched the same nodes is two concurrently live iterators,
                 # which no property speaks about (DESIGN §3 rule 4)
                 ops.append([rng.choice(["drop", "park", "closeslot"]), s])
-            elif r < 0.65:
+            elif r < 0.63:
                 ops.append(["collect"])
+            elif r < 0.66 and extendable:
+                # the query is extended after it has a history: `with symbolic_mode(q): IsBig()` adds a condition
+                eq = rng.choice(extendable)
+                others = [v["n"] for v in pool["vars"] if v["n"] not in ("u",) and v.get("t") != "View"
+                          and v["n"] not in [q["sel"][0] for q in pool["queries"] if q["id"] == eq]]
+                if others and rng.random() < 0.5:
+                    ops.append(["extend", eq, "Linked", rng.choice(others)])
+                else:
+                    ops.append(["extend", eq, rng.choice(["IsBig", "IsBigK"]), rng.choice([1, 2, 3])])
             elif r < 0.85:
                 ops.append(["fault", q, rng.choice([1, 1, 2, 2, 3, 4, 5, 6, 8, 10, 13, 17, 22, 30, 45])])
             elif r < 0.92 and the_ids:
@@ -271,6 +315,7 @@ class C04(Prop):
             return res
         sig = []
         states = set()
+        tainted = set()
         has_rules = any(q.get("rule") or q.get("head") for q in plan["pool"]["queries"])
         snap0 = run.world.snapshot()
         dups = plan.get("_control") or any(len(set(d)) != len(d) for d in plan["world"]["domains"].values())
@@ -356,6 +401,16 @@ class C04(Prop):
                             if op[2] > 0:
                                 held.append((i + op[2] + 1, r[2]))
                         sig.append(("the", r[0], r[1] if r[0] == "exc" else None))
+                    elif kind == "extend":
+                        try:
+                            run.extend(op[1], op[2], op[3])
+                            sim.count("probe:query_extended_after_history")
+                            sig.append(("extend", "ok"))
+                        except (SimBudget, SimTimeout):
+                            raise
+                        except Exception as e:
+                            tainted.add(op[1])      # half-applied extension: that query is not judged any more
+                            sig.append(("extend", "raised:" + type(e).__name__))
                     elif kind == "thefault":
                         r = run.the_eval(op[1], fault_at=op[2])
                         if r[0] == "exc" and r[1] == "SimFault":
@@ -413,7 +468,9 @@ class C04(Prop):
                         tw = run.twin()
                         same_q_live = [s for n, s in run.slots.items()
                                        if s.it is not None and s.state == "open" and s.qid == qid]
-                        if live and len(same_q_live) == len(live) and tw is not None:
+                        if qid in tainted:
+                            sig.append(("probe", "tainted"))
+                        elif live and len(same_q_live) == len(live) and tw is not None:
                             # Only earlier iterators of THIS query are suspended (abandoned but still referenced, never
                             # advanced again).  What two live iterators of one query deliver is demanded by no
                             # property, so the relaxation is narrow: rows that a suspended iterator has itself already
